@@ -415,6 +415,12 @@ fire("C13", "tensor-product weights kron'ed in another order than the points", "
      ("sub", "cubic.py", "            weights = np.kron(oned_x.weights, oned_y.weights)\n", "            weights = np.kron(oned_y.weights, oned_x.weights)\n"))
 fire("C13", "einsum multiplies the x-weights along the y axis", "tensor-weight-layout",
      ("sub", "cubic.py", "                        return np.einsum(\"ij,i->ij\", weight, weight_dir)\n", "                        return np.einsum(\"ij,j->ij\", weight, weight_dir)\n"))
+fire("C13", "inverse index map peels the middle coordinate with the wrong radix", "index-map-strides",
+     ("sub", "cubic.py", "            n_1d, n_2d = self.shape[2], self.shape[1] * self.shape[2]\n", "            n_1d, n_2d = self.shape[1], self.shape[1] * self.shape[2]\n"))
+fire("C13", "forward strides from a cumulative product taken from the wrong end", "index-map-strides",
+     ("sub", "cubic.py", "        strides = np.empty(self.ndim, dtype=int)\n        strides[-1] = 1\n", "        strides = np.append(np.cumprod(self.shape[1:])[::-1], 1)\n        return np.dot(indices, strides)\n        strides = np.empty(self.ndim, dtype=int)\n        strides[-1] = 1\n"))
+silent("C13", "forward strides from a cumulative product taken from the right end",
+     ("sub", "cubic.py", "        strides = np.empty(self.ndim, dtype=int)\n        strides[-1] = 1\n", "        strides = np.append(np.cumprod(self.shape[:0:-1])[::-1], 1)\n        return np.dot(indices, strides)\n        strides = np.empty(self.ndim, dtype=int)\n        strides[-1] = 1\n"))
 silent("C13", "three-dimensional test spelled `!= 2`",
        ("sub", "cubic.py", "            if len(shape) == 3:\n                weight_z = _fourier2(shape, 2)\n", "            if len(shape) != 2:\n                weight_z = _fourier2(shape, 2)\n"))
 silent("C04", "precondition spelled with the operands exchanged",
